@@ -6,7 +6,12 @@ def run(ctx):
     # alternative routes of the single-via algorithm (forward half + re-oriented reverse half)
     from lib import common
     out = ctx.harness(["ksp", "--random", "400" if ctx.tier == "quick" else "30000", "--maxv", "8"], timeout=3000)
-    ctx.validate("Trace_Ksp", common.split_scenarios(out), label="single-via alternatives")
+    scns = common.split_scenarios(out)
+    # Yen's algorithm (accept-all, shortest route of at least three edges, k = 2..3; child processes): contiguity of its routes
+    if ctx.pid == "C01":
+        out = ctx.harness(["ksp", "--yen-limits", "60" if ctx.tier == "quick" else "600", "--maxv", "8", "--k3"], timeout=6000)
+        scns += common.split_scenarios(out)
+    ctx.validate("Trace_Ksp", scns, label="single-via alternatives" + (" / Yen routes" if ctx.pid == "C01" else ""))
     ctx.rule = ("scenario = seeded random network (2..N vertices on a milli-degree lattice, multigraph with self loops, "
                 "metric and non-metric lengths) x query x algorithm x cost/access/frontier/limit configuration biased "
                 "towards this property; distinct by hash of the scenario; non-trivial = at least two successful edge "
